@@ -484,8 +484,8 @@ Section ValuePropsProofs.
   Proof.
     intros r i v H C. unfold opt_set, vget.
     destruct (nth_error (vr_slots r) i) as [[n|]|] eqn:E.
-    - destruct v as [x|]; cbn; rewrite vput_same by assumption; [rewrite (C x eq_refl)|]; reflexivity.
-    - destruct v as [x|]; cbn; rewrite vput_same by assumption; [rewrite (C x eq_refl)|]; reflexivity.
+    - destruct v as [x|]; cbn; rewrite vput_same by assumption; cbn; [rewrite (C x eq_refl)|]; reflexivity.
+    - destruct v as [x|]; cbn; rewrite vput_same by assumption; cbn; [rewrite (C x eq_refl)|]; reflexivity.
     - apply nth_error_None in E. lia.
   Qed.
 
@@ -518,7 +518,7 @@ Section ValuePropsProofs.
   Proof.
     intros r i x n E C. unfold req_set. rewrite E. cbn. unfold vget. cbn.
     pose proof (nth_error_lt _ _ _ E) as L.
-    rewrite vput_same by assumption. rewrite C. repeat split. intros j H. apply vput_other. assumption.
+    rewrite vput_same by assumption. cbn. rewrite C. repeat split. intros j H. apply vput_other. assumption.
   Qed.
 End ValuePropsProofs.
 
